@@ -767,6 +767,14 @@ func runC20(c *Ctx) {
 						}
 					}
 				}
+				// a predicate of the package that reads the header (isMarkedToSkip(resp))
+				if hfn := calleeOf(info, call); hfn != nil && depth < 2 {
+					if hfd := decls20[hfn]; hfd != nil && hfd.Body != nil && hfd.Type.Results != nil && len(hfd.Type.Results.List) == 1 {
+						if t := info.TypeOf(hfd.Type.Results.List[0].Type); t != nil && t.String() == "bool" {
+							scanGets(hfd, depth+1)
+						}
+					}
+				}
 			}
 			return true
 		})
@@ -893,7 +901,22 @@ func runC20(c *Ctx) {
 		}
 		// the marker is set only for requests that carry HX-Request: true
 		for _, f := range setBy[strings.ToLower(marker)] {
-			fden := &denum{info: info, pkg: p.Types, inits: map[types.Object]ast.Expr{}, limit: 5000, opaqueLoops: true}
+			// a one-statement setter (markToSkip(resp)) decides nothing itself: the function that calls it under the
+			// HX-Request test is judged in its place, the call standing for the Set
+			var setter types.Object
+			_, plainCall := f.Body.List[0].(*ast.ExprStmt)
+			if len(f.Body.List) == 1 && plainCall && !f.Name.IsExported() {
+				var callers []*ast.FuncDecl
+				for _, cf := range allFuncDecls(p) {
+					if cf != f && cf.Body != nil && containsCallToObj(info, cf.Body, info.Defs[f.Name]) {
+						callers = append(callers, cf)
+					}
+				}
+				if len(callers) == 1 {
+					setter, f = info.Defs[f.Name], callers[0]
+				}
+			}
+			fden := &denum{info: info, pkg: p.Types, inits: map[types.Object]ast.Expr{}, limit: 5000, opaqueLoops: true, decls: decls20}
 			fden.finish(fden.run(f.Body.List, []dstate{{env: map[types.Object]ast.Expr{}}}))
 			fkey := funcKey(p, f) + "|marker-only-for-htmx"
 			if fden.undecided != "" {
@@ -901,16 +924,26 @@ func runC20(c *Ctx) {
 				continue
 			}
 			var hxTexts []string
-			ast.Inspect(f.Body, func(n ast.Node) bool {
-				if call, ok := n.(*ast.CallExpr); ok {
-					if se, ok := call.Fun.(*ast.SelectorExpr); ok && se.Sel.Name == "Get" && len(call.Args) == 1 {
-						if k, ok := constString(info, call.Args[0]); ok && strings.EqualFold(k, "HX-Request") {
-							hxTexts = append(hxTexts, types.ExprString(call))
+			var scanHX func(body *ast.BlockStmt, depth int)
+			scanHX = func(body *ast.BlockStmt, depth int) {
+				ast.Inspect(body, func(n ast.Node) bool {
+					if call, ok := n.(*ast.CallExpr); ok {
+						if se, ok := call.Fun.(*ast.SelectorExpr); ok && se.Sel.Name == "Get" && len(call.Args) == 1 {
+							if k, ok := constString(info, call.Args[0]); ok && strings.EqualFold(k, "HX-Request") {
+								hxTexts = append(hxTexts, types.ExprString(call))
+							}
+						}
+						// a predicate of the package that reads the request header (isHTMXRequest(r))
+						if hfn := calleeOf(info, call); hfn != nil && depth < 2 {
+							if hfd := decls20[hfn]; hfd != nil && hfd.Body != nil && hfd != f {
+								scanHX(hfd.Body, depth+1)
+							}
 						}
 					}
-				}
-				return true
-			})
+					return true
+				})
+			}
+			scanHX(f.Body, 0)
 			sets := func(pth dpath) bool {
 				s := false
 				for _, st := range pth.Trace {
@@ -920,6 +953,11 @@ func runC20(c *Ctx) {
 								if k, ok := constString(info, call.Args[0]); ok && strings.EqualFold(k, marker) {
 									s = true
 								}
+							}
+						}
+						if call, ok := n.(*ast.CallExpr); ok && setter != nil {
+							if sfn := calleeOf(info, call); sfn != nil && types.Object(sfn) == setter {
+								s = true
 							}
 						}
 						return true
